@@ -241,8 +241,9 @@ def run(ck):
                             dict(inp, history="axis type set to an unknown one; transforms refused; axis type restored; get_Fourier_transform"), d3)
             except Exception as e:
                 ck.fail("raises:ft:after-refused", "history with a refused transform raised %r" % (e,), inp)
-        # a window function handed to the transform: the result is the Fourier sum of the windowed values
-        if h % 4 == 2:
+        # a window function handed to the transform: the result is the Fourier sum of the windowed values (also when the windowed
+        # values need a richer number type than the stored ones: whole-number data with a fractional window)
+        if h % 4 == 2 or h % 6 == 5:
             try:
                 wv = numpy.array([rng.randint(0, 8) / 8.0 for _ in range(N)])
                 Fw = f.get_Fourier_transform(window=DFunction(t, wv.copy()))
